@@ -25,6 +25,7 @@ import (
 	"bytes"
 	"encoding/hex"
 	"encoding/json"
+	"errors"
 	"flag"
 	"fmt"
 	"io"
@@ -183,7 +184,30 @@ type response struct {
 	err    error
 }
 
-func (c *child) do(r request) response {
+var slowClient = &http.Client{Timeout: 60 * time.Second, Transport: &http.Transport{DisableCompression: true}}
+
+func isTimeout(err error) bool {
+	type timeout interface{ Timeout() bool }
+	var t timeout
+	return errors.As(err, &t) && t.Timeout()
+}
+
+// waitPing: does the server answer a ping within d?
+func (c *child) waitPing(d time.Duration) bool {
+	deadline := time.Now().Add(d)
+	for time.Now().Before(deadline) && c.alive() {
+		r := c.doWith(slowClient, request{"ping", "BASIC", "GET", "/v2/ping", "", nil})
+		if r.err == nil && r.status == 200 {
+			return true
+		}
+		time.Sleep(200 * time.Millisecond)
+	}
+	return false
+}
+
+func (c *child) do(r request) response { return c.doWith(httpClient, r) }
+
+func (c *child) doWith(client *http.Client, r request) response {
 	req, err := http.NewRequest(r.method, fmt.Sprintf("http://127.0.0.1:%d%s", c.port, r.path), bytes.NewReader(r.body))
 	if err != nil {
 		return response{err: err}
@@ -197,7 +221,7 @@ func (c *child) do(r request) response {
 	if r.ctype != "" {
 		req.Header.Set("Content-Type", r.ctype)
 	}
-	resp, err := httpClient.Do(req)
+	resp, err := client.Do(req)
 	if err != nil {
 		return response{err: err}
 	}
@@ -815,7 +839,9 @@ type runner struct {
 	baseFailed map[string]bool
 	judged     int
 	unjudged   int
-	distinct   map[string]struct{}
+	// a time-out was confirmed by a ping + retry (see judge)
+	hangConfirmed bool
+	distinct      map[string]struct{}
 }
 
 func (rn *runner) restart() {
@@ -1038,6 +1064,40 @@ func (rn *runner) judge(req request, ep, ctype, mutKind, mutPath, key, hline str
 	c := rn.w.c
 	resp := c.do(req)
 	rn.judged++
+	retried := false
+	if resp.err != nil && isTimeout(resp.err) && c.alive() && !rn.hangConfirmed {
+		// No answer within the client's time-out although the process lives. The machine is shared: a stall of
+		// the whole child looks the same as a hung handler. Before this is reported, the server gets a minute to
+		// answer a ping and the same request is sent once more with a long time-out: a handler that hangs on a
+		// lock hangs again (reported as before); a request that is answered now was slow, not lost. The retried
+		// request is not compared with the model (the first attempt may have been carried out meanwhile).
+		rn.statusCt["timeout-first-attempt"]++
+		if c.waitPing(60 * time.Second) {
+			if r2 := c.doWith(slowClient, req); r2.err == nil {
+				resp, retried = r2, true
+				rn.statusCt["answered-on-retry"]++
+			}
+		}
+		if !retried {
+			rn.hangConfirmed = true // a real hang: later time-outs of this run are reported at once
+		}
+	}
+	if retried {
+		// judged for "answered" and 5xx only: the first attempt may have been carried out as well, so neither the
+		// model's status nor the state digest of before applies
+		st := resp.status
+		rn.statusCt[strconv.Itoa(st)]++
+		if st >= 500 && !rn.w.taint[key] {
+			msg := string(resp.body)
+			rn.fail(fmt.Sprintf("5xx:%s:%d:%s", ep, st, errClass(msg)), fmt.Sprintf("%s %s (%s / %s) answered %d %s", req.method, req.path, mutKind, mutPath, st, strings.TrimSpace(msg)), rn.replayFor(key, req, hline))
+		}
+		if st >= 200 && st < 300 && req.method != "GET" && !strings.HasSuffix(req.path, "/search") {
+			rn.w.hist[key] = append(rn.w.hist[key], req.line())
+		}
+		time.Sleep(200 * time.Millisecond)
+		rn.refresh()
+		return st
+	}
 	if resp.err != nil {
 		time.Sleep(50 * time.Millisecond)
 		if !c.alive() {
